@@ -123,7 +123,7 @@ func runChild(o SuperOpts, p *Prop, b Batch, outDir string, idx int, trace bool,
 	var werr error
 	timedOut := false
 	hang := make(chan struct{})
-	if trace {
+	if trace && !b.Slow {
 		// In the traced re-run a single case that stays current for hangS
 		// seconds is a call that does not return.
 		go func() {
@@ -281,6 +281,11 @@ func Supervise(o SuperOpts) int {
 				agg.Merge(oc.res)
 				return
 			}
+			if b.Slow && oc.timedOut {
+				agg.Inconclusive++
+				agg.InconcNotes = append(agg.InconcNotes, fmt.Sprintf("batch %s (slow by design: multi-GiB buffers) did not finish within its watchdog on this machine; no verdict is derived from its timing", b.Name))
+				return
+			}
 			// The child died or hung: re-run in trace mode to pin the case.
 			agg.Died++
 			mu.Unlock()
@@ -317,6 +322,11 @@ func Supervise(o SuperOpts) int {
 				infra = append(infra, fmt.Sprintf("batch %s: unreadable trace case", b.Name))
 				return
 			}
+			if oc2.timedOut && b.Slow {
+				agg.Inconclusive++
+				agg.InconcNotes = append(agg.InconcNotes, fmt.Sprintf("batch %s (slow by design) did not finish its traced re-run within the watchdog; no hang verdict is derived from its timing", b.Name))
+				return
+			}
 			if oc2.timedOut {
 				st, _ := os.Stat(casePath)
 				if st != nil && time.Since(st.ModTime()) < hangS*time.Second {
@@ -327,6 +337,11 @@ func Supervise(o SuperOpts) int {
 				agg.NViol++
 				agg.Violations = append(agg.Violations, Violation{Prop: o.Prop, Kind: "hang", Key: tc.Key, Batch: b.Name,
 					Msg: "a single call did not return within 90 s (watchdog of the traced re-run)\n" + oc2.logTail, Payload: tc.Payload})
+				return
+			}
+			if b.Slow && (strings.Contains(oc2.exit, "killed") || strings.Contains(oc2.logTail, "out of memory") || strings.Contains(oc2.logTail, "cannot allocate memory")) {
+				agg.Inconclusive++
+				agg.InconcNotes = append(agg.InconcNotes, fmt.Sprintf("batch %s (multi-GiB buffers by design) was killed for lack of memory on this machine (%s); not a verdict", b.Name, oc2.exit))
 				return
 			}
 			agg.NViol++
